@@ -34,19 +34,15 @@ def _lru_cache(maxsize=128, typed=False):
 
 
 def _make(f, maxsize):
-    cache = {}
-
     def wrapper(*a, **k):
+        cache = wrapper.cache  # looked up per call: C06's virtual pool swaps per-worker cache sets in and out
         key = (a, tuple(sorted(k.items()))) if k else (a, ())
-        try:
-            hit = key in cache
-        except TypeError:
-            raise
-        if hit:
+        if key in cache:
             v = cache.pop(key)
             cache[key] = v
             return v
         v = f(*a, **k)
+        cache = wrapper.cache
         cache[key] = v
         if ON_INSERT is not None:
             ON_INSERT(wrapper, key, v)
@@ -54,8 +50,8 @@ def _make(f, maxsize):
             cache.pop(next(iter(cache)))
         return v
 
-    wrapper.cache = cache
-    wrapper.cache_clear = cache.clear
+    wrapper.cache = {}
+    wrapper.cache_clear = lambda: wrapper.cache.clear()
     wrapper.maxsize = maxsize
     functools.update_wrapper(wrapper, f)
     wrapper.__wrapped__ = f
